@@ -1,4 +1,201 @@
-import MgProof.C08.Lemmas
+import MgProof.C08.Main
+import MgProof.C08.Crash
+/-!
+# C08 — property theorems for the shared-memory ring buffer
+
+Model: `MgModel.C08.step` (one step per shared-memory access of
+`muggle/c/sync/shm_ring_buffer.c` at `-O0`, tied to the real object code by
+checks/C08). All theorems quantify over
+
+* every ring size `N ≥ 1` cache lines (a power of two is not needed),
+* every number of threads and every client program list `progs` with `Client wt rt useLock progs`:
+  every message has `n ≥ 1` bytes (any length, also far above half the ring), only thread `rt`
+  fetches, and without the write lock only thread `wt` allocates (`wt = rt` is allowed: the
+  sequential histories); with `useLock = true` any number of threads allocate under the lock,
+* every schedule of every length (`Reach`): all interleavings at the granularity of one
+  shared-memory access, including every schedule in which some thread never runs again
+  (a crashed process) — no fairness is assumed anywhere.
+
+The ghost fields mentioned below (`committed`, `delivered`, `pend`, the violation counters)
+are defined in MgModel/C08/Ring.lean next to the step that updates them; the harness
+computes the same values from its own observation of the real code and the two are compared
+run by run.
+-/
 namespace MgProof.C08
 open MgModel.Conc MgModel.C08
+
+variable {wt rt N : Nat} {useLock : Bool} {progs : List (List Op)}
+
+/-- **Clause 1 (exactly once, in commit order, exact length and bytes).**
+In every reachable state the log of committed messages is the log of delivered messages
+followed by the pending ones: what the reader has consumed is a prefix of what was committed,
+message for message (`Msg` equality = header cell, `n_bytes`, `n_cachelines` as read from the
+header by the reader, and the payload fill byte as read from the payload), nothing is skipped,
+duplicated or reordered; the harness-style monitors never fired: every fetched message was the
+oldest pending one (`fifoViol`) and every one of its payload bytes had the committed value
+(`corrupt`). -/
+theorem exactly_once_in_order_intact (hN : 1 ≤ N) (hc : Client wt rt useLock progs)
+    (s : St) (hr : Reach step (mkInit N useLock progs).1 s) :
+    s.committed = s.delivered ++ s.pend ∧ s.fifoViol = 0 ∧ s.corrupt = 0 := by
+  have inv := reach_inv hN hc s hr
+  exact ⟨by rw [inv.pend]; exact inv.log, inv.cnt.1, inv.cnt.2.2.2.1⟩
+
+/-- **Clause 1, memory form.** Every committed, unconsumed message is intact in the shared memory:
+its header cell holds exactly the committed length and cache-line count and every payload cell
+holds the committed fill — whatever the writers are doing at that moment. -/
+theorem pending_messages_intact_in_memory (hN : 1 ≤ N) (hc : Client wt rt useLock progs)
+    (s : St) (hr : Reach step (mkInit N useLock progs).1 s) :
+    ∀ m, m ∈ s.pend → MsgOk s m := by
+  have inv := reach_inv hN hc s hr
+  rw [inv.pend]; exact inv.msgs
+
+/-- **Clause 1, at the return of `r_fetch`.** When `r_fetch` is about to return a message (program
+counter `g3`, `nb` = the length it stored into `*n_bytes`), that message is the oldest pending one:
+its header is the cell `cached_r_hdr` points to and `nb` is its committed length. -/
+theorem fetch_returns_oldest_pending (hN : 1 ≤ N) (hc : Client wt rt useLock progs)
+    (s : St) (hr : Reach step (mkInit N useLock progs).1 s) (t nb : Nat) (hpc : s.pc t = .g3 nb) :
+    ∃ m rest, s.pend = m :: rest ∧ s.RH = some m.cell ∧ nb = m.nb ∧ MsgOk s m := by
+  have inv := reach_inv hN hc s hr
+  have h := (inv.thr t).r
+  rw [hpc] at h
+  obtain ⟨hRH, m, l, hq, hnb⟩ := h
+  obtain ⟨hcell, hok, -⟩ := inv.head hq
+  exact ⟨m, l ++ s.q2, by rw [inv.pend, hq]; rfl, by rw [hRH, hcell], hnb, hok⟩
+
+/-- **Clause 1 (fetch reports "nothing" only when nothing is pending).** `noneViol` counts the
+`NULL` returns of `r_fetch` for which a committed message was pending at the moment `r_fetch`
+loaded `write_cursor` (its linearisation point; the reader sitting on the wrap marker while
+`write_cursor = 0` is the "nothing pending" case of the second `return NULL`). It stays 0. -/
+theorem fetch_none_only_when_nothing_pending (hN : 1 ≤ N) (hc : Client wt rt useLock progs)
+    (s : St) (hr : Reach step (mkInit N useLock progs).1 s) : s.noneViol = 0 :=
+  (reach_inv hN hc s hr).cnt.2.2.2.2.2.1
+
+/-- **Clause 2 (the writer's region never overlaps unread data).** `overlapViol` counts, at every
+return of `w_alloc_bytes`, the committed-unconsumed messages whose cells intersect the returned
+region `[cell, cell + n_cachelines)`; `boundsViol` counts returned regions that leave the ring.
+Both stay 0, and both cursors stay inside the ring. -/
+theorem writer_region_never_overlaps_unread (hN : 1 ≤ N) (hc : Client wt rt useLock progs)
+    (s : St) (hr : Reach step (mkInit N useLock progs).1 s) :
+    s.overlapViol = 0 ∧ s.boundsViol = 0 ∧ s.W < s.N ∧ s.R < s.N := by
+  have inv := reach_inv hN hc s hr
+  have := inv.wle
+  have := inv.rle
+  exact ⟨inv.cnt.2.1, inv.cnt.2.2.1, by omega, by omega⟩
+
+/-- **Clause 2, direct form.** While a writer fills the payload it was handed (program counter `p1`,
+header cell `w`), the region `[w, w + n_cachelines)` lies inside the ring (one cell before the end
+stays free for the marker) and is disjoint from every committed-unconsumed message — also from the
+one the reader is parsing right now — and from a wrap marker the reader has not passed yet. -/
+theorem writer_region_is_free (hN : 1 ≤ N) (hc : Client wt rt useLock progs)
+    (s : St) (hr : Reach step (mkInit N useLock progs).1 s) (t w : Nat) (hpc : s.pc t = .p1 w) :
+    w + (s.cur t).ncl + 1 ≤ s.N ∧
+    (∀ m, m ∈ s.pend → m.cell + m.ncl ≤ w ∨ w + (s.cur t).ncl ≤ m.cell) ∧
+    (∀ M, s.mark = some M → w + (s.cur t).ncl ≤ M) := by
+  have inv := reach_inv hN hc s hr
+  have h := (inv.thr t).w
+  rw [hpc] at h
+  obtain ⟨rfl, hcr, -⟩ := h
+  have h1 := inv.crok.1
+  refine ⟨by omega, ?_, ?_⟩
+  · intro m hm
+    rw [inv.pend] at hm
+    have := inv.free (k := s.CR) inv.crok.1 inv.crok.2 hm
+    omega
+  · intro M hM
+    have := inv.free_mark (k := s.CR) inv.crok.2 hM
+    omega
+
+/-- **Clause 3 (no wedge).** `wedge` counts the allocations that failed although (a) the ring was
+drained when the allocation started (everything committed had been consumed; sampled once no other
+writer can commit any more) and (b) the request was at most `N/2 − 1` cache lines *including* the
+overhead of `MUGGLE_SHM_RINGBUF_CAL_BYTES_CACHELINE` (`ncl + 1 ≤ N/2`). It stays 0 — for every
+history of earlier requests, of any sizes. The constant is exact, see `half_ring_bound_is_tight`. -/
+theorem no_wedge (hN : 1 ≤ N) (hc : Client wt rt useLock progs)
+    (s : St) (hr : Reach step (mkInit N useLock progs).1 s) : s.wedge = 0 :=
+  (reach_inv hN hc s hr).cnt.2.2.2.2.1
+
+/-- **Clause 3, direct form.** At the second test of `w_alloc_cachelines` (program counter `a2`,
+after `update_cached_remain`), an allocation that started on a drained ring with a request of at
+most `N/2 − 1` cache lines finds `cached_remain ≥ request`: it does not return `NULL`. -/
+theorem drained_ring_accepts (hN : 1 ≤ N) (hc : Client wt rt useLock progs)
+    (s : St) (hr : Reach step (mkInit N useLock progs).1 s) (t : Nat) (hpc : s.pc t = .a2)
+    (hd : (s.cur t).drained = true) (hk : (s.cur t).ncl + 1 ≤ s.N / 2) : (s.cur t).ncl ≤ s.CR := by
+  have h := ((reach_inv hN hc s hr).thr t).w
+  rw [hpc] at h
+  exact h ⟨hd, hk⟩
+
+/-- **Clause 4 (writer crash).** Take any reachable state `s` — the writers may be anywhere: between
+the two header words, after the payload but before the commit store, between the marker and the
+cursor reset, holding the write lock — and let only the reader `rt` (a thread that never
+allocates) run from there, for any number of steps: nothing is committed any more, and what the
+reader delivers in addition is exactly a prefix `d` of the messages that were pending at `s`, in
+order, with exact length and bytes (`Msg` equality; `corrupt`, `fifoViol` stay 0): it never sees a
+message that was not committed as a whole. -/
+theorem writer_crash (hN : 1 ≤ N) (hc : Client wt rt useLock progs)
+    (hro : ∀ op, op ∈ progs.getD rt [] → isFetch op = true)
+    (s : St) (hr : Reach step (mkInit N useLock progs).1 s)
+    (ts : List Tok) (hts : ∀ tok, tok ∈ ts → tok.tid = rt) :
+    ∃ d, (runSched step s ts).1.delivered = s.delivered ++ d ∧ d ++ (runSched step s ts).1.pend = s.pend ∧
+      (runSched step s ts).1.committed = s.committed ∧
+      (runSched step s ts).1.corrupt = 0 ∧ (runSched step s ts).1.fifoViol = 0 := by
+  have hp := reach_pure (N := N) (useLock := useLock) hro s hr
+  obtain ⟨-, hcm, d, hd⟩ := reader_alone hp ts hts
+  have hr' := reach_runSched step _ s hr ts
+  obtain ⟨h1, h2, h3⟩ := exactly_once_in_order_intact hN hc _ hr'
+  obtain ⟨g1, -, -⟩ := exactly_once_in_order_intact hN hc s hr
+  refine ⟨d, hd, ?_, hcm, h3, h2⟩
+  rw [hcm, hd, g1, List.append_assoc] at h1
+  exact (List.append_cancel_left h1).symm
+
+/-- **Memory safety of the modelled code.** `errs` counts the model's explicit error transitions:
+a header / payload access outside `[0, N)`, an unsigned underflow (`r − w − 1`, `n − w − 1`,
+`r − 1`, `cached_remain − n`), a `NULL` `cached_w_hdr` / `cached_r_hdr`, or parsing a cell that is
+not a header as a header. None is reachable. -/
+theorem no_model_error (hN : 1 ≤ N) (hc : Client wt rt useLock progs)
+    (s : St) (hr : Reach step (mkInit N useLock progs).1 s) : s.errs = 0 :=
+  (reach_inv hN hc s hr).cnt.2.2.2.2.2.2
+
+/-! ## the constants are exact (negative witnesses, by evaluation of the model) -/
+
+private def seqSched (n : Nat) : List Tok := List.replicate n { tid := 0 }
+
+/-- The literal reading "a drained ring accepts a message of up to half its size" does not hold for
+this code, and `N/2 − 1` cache lines is the exact bound: on a ring of 8 cache lines a 57-byte message
+needs 4 = N/2 lines; after one such message has been written and consumed (`committed = delivered`:
+drained, both cursors at 4) the same request is refused — and will be refused for ever, because
+neither side (`8 − 4 − 1` and `4 − 1`) has 4 lines. -/
+theorem half_ring_bound_is_tight :
+    let s := (runSched step (mkInit 8 false [[.alloc 57 true, .fetch, .alloc 57 true]]).1 (seqSched 60)).1
+    s.committed.length = 1 ∧ s.delivered.length = 1 ∧ s.W = 4 ∧ s.R = 4 ∧ s.fails = 1 ∧ s.wedge = 0 := by
+  decide
+
+/-- … and a ring of 4 cache lines accepts exactly one message (3 lines, the minimum) in its life. -/
+theorem ring_of_four_wedges :
+    let s := (runSched step (mkInit 4 false [[.alloc 1 true, .fetch, .alloc 1 true]]).1 (seqSched 60)).1
+    s.committed.length = 1 ∧ s.delivered.length = 1 ∧ s.W = 3 ∧ s.R = 3 ∧ s.fails = 1 ∧ s.wedge = 0 := by
+  decide
+
+/-! ## non-vacuity -/
+
+/-- the hypotheses are satisfiable: one writer, one reader, no lock -/
+example : Client 0 1 false [[.alloc 5 true, .alloc 100 true, .alloc 60 true], [.fetch, .fetch, .fetch]] := by
+  refine ⟨?_, ?_, ?_⟩
+  · intro t op h; rcases t with _ | _ | t <;> simp at h <;> rcases h with rfl | rfl | rfl <;> simp [OpOk]
+  · intro t ht op h; rcases t with _ | _ | t <;> simp at h ht <;> rcases h with rfl | rfl | rfl <;> simp [isFetch]
+  · intro _ t ht op h; rcases t with _ | _ | t <;> simp at h ht <;> rcases h with rfl | rfl | rfl <;> simp [isFetch]
+
+/-- … and two writers under the lock plus a reader -/
+example : Client 0 2 true [[.alloc 5 true], [.alloc 1 false, .alloc 9 true], [.fetch, .fetch]] := by
+  refine ⟨?_, ?_, by intro h; cases h⟩
+  · intro t op h; rcases t with _ | _ | _ | t <;> simp at h <;> (try rcases h with rfl | rfl) <;> simp_all [OpOk]
+  · intro t ht op h; rcases t with _ | _ | _ | t <;> simp at h ht <;> (try rcases h with rfl | rfl) <;> simp_all [isFetch]
+
+/-- a reachable state in which the ring has wrapped and three messages went through:
+the theorems talk about non-trivial states -/
+example :
+    let s := (runSched step (mkInit 8 false [[.alloc 5 true, .alloc 100 true, .fetch, .fetch, .alloc 60 true,
+                                               .fetch]]).1 (seqSched 120)).1
+    s.delivered.length = 3 ∧ s.committed = s.delivered ∧ s.R = 4 ∧ s.W = 4 := by
+  decide
+
 end MgProof.C08
